@@ -9,20 +9,33 @@
 EXTENDS Integers, Sequences, FiniteSets
 
 Models == {"ok_lp", "ok_logic", "infeas", "unsupported", "needbounds",
-           "trunc_header", "trunc_body", "bad_opcode", "bad_index", "empty", "missing"}
-Opts == {"none", "valid", "unknown", "illtyped", "objno_range"}
+           "trunc_header", "trunc_body", "bad_opcode", "bad_index", "empty", "missing",
+           "infeas_nested",    \* infeasibility found while propagating into a nested expression
+           "ok_noobj"}         \* valid model without objective
+Opts == {"none", "valid", "unknown", "illtyped", "objno_range",
+         "solcount",           \* valid: sol:count=1 (multiple-solution suffixes)
+         "optfile_self",       \* tech:optionfile naming a file that includes itself
+         "optfile_missing"}    \* tech:optionfile naming a file that does not exist
 Modes == {"ampl", "wantsol", "plain"}
-Names == {"absent", "present", "short", "crlf"}
-Outs == {"ok", "blocked"}
-Scenarios == [model : Models, opt : Opts, mode : Modes, names : Names, out : Outs]
+Names == {"absent", "present", "short", "crlf",
+          "emptyfirst"}        \* malformed: the names files start with an empty line
+Outs == {"ok", "blocked",
+         "full"}               \* the result path accepts open() but fails on write/close (device full)
+NewValues == {"infeas_nested", "ok_noobj", "solcount", "optfile_self", "optfile_missing", "emptyfirst", "full"}
+\* the scenario space: the complete product of the round-1 values, plus every scenario that uses
+\* exactly one of the values added later (keeps the run count linear in the additions)
+NewCount(s) == Cardinality({f \in {"model", "opt", "names", "out"} : s[f] \in NewValues})
+Scenarios == {s \in [model : Models, opt : Opts, mode : Modes, names : Names, out : Outs] : NewCount(s) <= 1}
 
 HeaderReadable(s) == s.model \notin {"trunc_header", "empty", "missing"}
 BodyBad(s) == s.model \in {"trunc_body", "bad_opcode", "bad_index"}
-OptBad(s) == s.opt \in {"unknown", "illtyped", "objno_range"}
+OptBad(s) == s.opt \in {"unknown", "illtyped", "objno_range", "optfile_self", "optfile_missing"}
 ConvBad(s) == s.model \in {"unsupported", "needbounds"}
 Failing(s) == ~HeaderReadable(s) \/ BodyBad(s) \/ OptBad(s) \/ ConvBad(s)
 WantsSol(s) == s.mode \in {"ampl", "wantsol"}
 CanWriteSol(s) == WantsSol(s) /\ s.out = "ok" /\ HeaderReadable(s)
+\* a malformed names file may be ignored or diagnosed - but the run must end in one of the two
+NamesBad(s) == s.names = "emptyfirst"
 
 \* observed outcome o: [hang, crash, exit, sol ("absent" | "ok" | "malformed"), code, dimsOK,
 \*                      msgNonEmpty, stderrNonEmpty, stdoutNonEmpty]
@@ -35,8 +48,8 @@ Accept(s, o) ==
   /\ WellFormed(s, o)
   /\ IF CanWriteSol(s)
        THEN /\ o.sol = "ok"
-            /\ IF Failing(s) THEN o.code >= 500 /\ o.code <= 999 /\ o.msgNonEmpty
-               ELSE IF s.model = "infeas" THEN (o.code >= 200 /\ o.code <= 299 /\ o.msgNonEmpty) \/ o.code = Scripted
+            /\ IF Failing(s) \/ (NamesBad(s) /\ o.code >= 500) THEN o.code >= 500 /\ o.code <= 999 /\ o.msgNonEmpty
+               ELSE IF s.model \in {"infeas", "infeas_nested"} THEN (o.code >= 200 /\ o.code <= 299 /\ o.msgNonEmpty) \/ o.code = Scripted
                ELSE o.code = Scripted
      ELSE IF WantsSol(s)
        \* the result file cannot be produced: header unreadable or the path is blocked
